@@ -1,5 +1,5 @@
 """Sidecar contracts: which real function is checked against which specification."""
-from pyvc.verify import Contract, Cut, Lemma, STR, INT, BOOL, OPT, URLT, UNION, CONST
+from pyvc.verify import Contract, Cut, Lemma, STR, INT, BOOL, OPT, URLT, UNION, CONST, BYTES
 
 from . import hooks, spec_parse, spec_url
 
@@ -106,7 +106,7 @@ add(Contract("yarl._url:_encode_host", [("host", STR), ("validate_host", BOOL)],
 add(Contract("yarl._path:normalize_path", [("path", STR)], spec=spec_url.normalize_path,
              opaque=True, shape=STR, assumed=True, props=()))
 add(Contract("yarl._url:encode_url", [("url_str", STR)], spec=spec_url.encode_url, raises=(ValueError,),
-             transparent=("yarl._parse:make_netloc",),
+             transparent=("yarl._parse:make_netloc",), shards=16,
              props=("WIP",)))
 add(Contract("yarl._url:pre_encoded_url", [("url_str", STR)], spec=spec_url.pre_encoded_url, raises=(ValueError,),
              props=("C07", "C19", "C09")))
@@ -119,3 +119,75 @@ add(Lemma(spec_parse.lemma_netloc_roundtrip,
 
 add(Contract("yarl._url:URL._cache_netloc", [("self", URLT)], spec=spec_url.cache_netloc, requires=spec_url.netloc_ok,
              props=("C08", "C09")))
+
+add(Contract("yarl._url:URL.build",
+             [("cls", CONST(None)), ("scheme", STR), ("authority", STR), ("user", OPT(STR)), ("password", OPT(STR)),
+              ("host", STR), ("port", UNION(OPT(INT), BOOL, CONST("80"))), ("path", STR), ("query", CONST(None)),
+              ("query_string", STR), ("fragment", STR), ("encoded", BOOL)],
+             spec=spec_url.build, raises=(TypeError, ValueError), props=("WIP",)))
+
+# ---------------------------------------------------------------- the quoters (C01, C02, C04, C05)
+import ast as _ast
+import os as _os
+
+from . import spec_quote
+import yarl._quoting_py as _qpy
+
+
+def _quoter_configs():
+    """the quoter configurations, read from the real yarl/_quoters.py source"""
+    src = open(_os.path.join(_os.environ.get("PYVC_REPO", "/repo"), "yarl", "_quoters.py")).read()
+    out = {}
+    for node in _ast.parse(src).body:
+        if isinstance(node, _ast.Assign) and isinstance(node.value, _ast.Call) and \
+                getattr(node.value.func, "id", None) == "_Quoter" and len(node.targets) == 1:
+            out[node.targets[0].id] = {k.arg: _ast.literal_eval(k.value) for k in node.value.keywords}
+    return out
+
+
+PY_QUOTERS = {}
+for _name, _kw in _quoter_configs().items():
+    if _name in spec_quote.QUOTERS:
+        _inst = _qpy._Quoter(**_kw)
+        PY_QUOTERS[_name] = _inst
+        spec_quote.INSTANCE_NAME[id(_inst)] = _name
+
+
+def _quoter_stream_result(ex, st, stream):
+    """reading the output buffer after the loop: by the simulation rule its content is the
+    concatenation of the specification's units for all tokens of the input; what callers use is
+    the unit-alphabet lemma (contracts.spec_quote.lemma_unit_alphabet)"""
+    from pyvc import values as V
+    import z3
+    q = st.env["self"].obj
+    name = spec_quote.INSTANCE_NAME[id(q)]
+    codes = [ord(c) for c in spec_quote.out_alphabet(name)]
+    r = V.fresh_str(st.ctx, "quoted")
+    A, lo, hi = r.a, r.lo, r.hi
+    st.ctx.addq("alphabet", A, lambda k: z3.Implies(z3.And(lo <= k, k < hi), V.in_set(A[k], codes)))
+    ex.lemmas_used.add("contracts.spec_quote:lemma_unit_alphabet")
+    return r
+
+
+_PYQ_LOOP = {
+    "inv": ("0 <= idx and idx <= len(bval) and 0 <= G_p and G_p <= len(bval) and len(pct) <= 2 "
+            "and (not (idx < len(bval) or len(pct) == 0) or G_p == idx - len(pct)) "
+            "and (not (idx == len(bval) and len(pct) >= 1) or (len(pct) == 1 and G_p == len(bval))) "
+            "and (len(pct) == 0 or (self._requote and pct[0] == 37 and idx >= len(pct) and bval[idx - len(pct)] == 37)) "
+            "and (len(pct) < 2 or pct[1] == upper_byte(bval[idx - 1]))"),
+    "lists": {"pct": (0, 2)},
+    "streams": ["ret"],
+    "ghost": {"p": "0"},
+    "step": "q_step(self, bval, G_p)",
+    "exit": "G_p == len(bval)",
+    "stream_result": _quoter_stream_result,
+}
+add(Contract("yarl._quoting_py:_Quoter.__call__",
+             [("self", CONST(*PY_QUOTERS.values())), ("val", UNION(OPT(STR), CONST(1, b"x")))],
+             spec=None, native_spec=spec_quote.q_spec, spec_module=spec_quote,
+             raises=(TypeError,), loops={0: _PYQ_LOOP}, props=("C01", "C02", "C04", "C05", "C19"),
+             note="stream simulation against spec_quote.q_step, all nine configurations"))
+for _name, _inst in PY_QUOTERS.items():
+    pass
+add(Lemma(spec_quote.lemma_unit_alphabet, [("quoter", CONST(*PY_QUOTERS.values())), ("B", BYTES), ("p", INT)],
+          requires=spec_quote.lemma_requires, props=("C01",)))
